@@ -276,6 +276,13 @@ def execute(req, env: Env):
 
             env.fields["fc2"] = FieldCollection([_sfield(env, n) for n in req[1]], copy_fields=True)
             return ["val", "None"]
+        if kind == "setghost":  # leave other ghost cells (incl. corners) behind, as an earlier use of the field would
+            _, name, bcid = req
+            _sfield(env, name).set_ghost_cells(BCS[bcid], set_corners=True)
+            return ["val", "None"]
+        if kind == "lap9":  # the 9-point Laplacian fills the corner ghost cells of the field's own array
+            _, name, bcid = req
+            return _digest(np, _sfield(env, name).laplace(BCS[bcid], corner_weight=0.3))
         if kind == "setdata":
             _, name, k = req
             f = _sfield(env, name)
@@ -300,7 +307,7 @@ def _sfield(env, name):
 
     key = ("s", name)
     if key not in env.fields:
-        gid = "C" if name.startswith("p") else "A"
+        gid = "C" if name.startswith("p") else ("D" if name.startswith("q") else "A")
         g = env.grid(gid)
         env.fields[key] = ScalarField(g, _data(env.np, g, 0) + (10 if name.endswith("2") else 0))
     return env.fields[key]
@@ -443,6 +450,10 @@ def alphabet(family, tier):
         reqs += [["link", ["f", "f2"]], ["link", ["f2", "f"]], ["link", ["p"]], ["copylink", ["f", "f2"]]]
         reqs += [["setdata", "f", 0], ["setdata", "f", 1], ["setdata", "f2", 0], ["setdata", "p", 1]]
         reqs += [["interp_member", 0, [0.7], "plain"], ["interp_member", 1, [2.0], "bc"]]
+        # a field with two axes: the corner ghost cells are nobody's boundary condition - whatever an earlier condition,
+        # operator or copy left there must not enter an interpolation with bc near a corner
+        reqs += [["interp", "q", [0.2, 0.3], "bc"], ["interp", "q", [1.9, 0.1], "bc"], ["interp", "q", [1.0, 1.0], "plain"]]
+        reqs += [["setghost", "q", "v1"], ["setghost", "q", "d1"], ["lap9", "q", "v1"], ["setdata", "q", 1]]
     return reqs
 
 
@@ -513,7 +524,7 @@ def run_in_child(history):
                         f = None
                     if f is not None:
                         gid = [k for k, g in env.grids.items() if g is f.grid]
-                        state = [gid[0] if gid else ("C" if f.grid.periodic[0] else "A"), [float(v) for v in f.data]]
+                        state = [gid[0] if gid else ("C" if f.grid.periodic[0] else "A"), f.data.tolist()]
                 out.append([res, state])
             payload = pickle.dumps(out)
         except BaseException as e:  # noqa: BLE001
@@ -545,7 +556,7 @@ def check_history(hist):
     if res and res[0][0] == "child-failure":
         return [{"sig": "child process failed", "msg": str(res), "detail": None}]
     for i, (req, (got, state)) in enumerate(zip(hist, res)):
-        if req[0] in ("link", "copylink", "setdata"):
+        if req[0] in ("link", "copylink", "setdata", "setghost", "lap9"):
             continue
         if req[0] in ("interp", "interp_member"):
             if state is None:
